@@ -4,6 +4,7 @@ import write_checks
 import chain_checks
 import server_checks
 import envelope_checks
+import misc_checks
 
 CHECKS = {
     "C01": (conn_checks.c01, conn_checks.replay_framing),
@@ -18,4 +19,5 @@ CHECKS = {
     "C11": (chain_checks.c11, chain_checks.replay_chain),
     "C17": (write_checks.c17, write_checks.replay_writing),
     "C18": (server_checks.c18, server_checks.replay_server),
+    "C20": (misc_checks.c20, misc_checks.replay_generic),
 }
